@@ -670,25 +670,9 @@ func (t *fnTrans) resolveMod(item string, env *Env) []modTarget {
 	case *EIdent:
 		if g, ok := t.eng.contracts.Ghosts[x.Name]; ok {
 			out := []modTarget{{name: t.ghostVar(g, env.pkgOf(g.Pkg)).Name}}
-			for _, grp := range t.eng.contracts.GhostGroups {
-				in := false
-				if len(grp) > 1 && grp[0] == "<lead>" {
-					in = grp[1] == x.Name
-					grp = grp[1:]
-				} else {
-					for _, n := range grp {
-						if n == x.Name {
-							in = true
-						}
-					}
-				}
-				if !in {
-					continue
-				}
-				for _, n := range grp {
-					if g2, ok := t.eng.contracts.Ghosts[n]; ok && n != x.Name {
-						out = append(out, modTarget{name: t.ghostVar(g2, env.pkgOf(g2.Pkg)).Name})
-					}
+			for _, n := range t.eng.contracts.ghostClosure(x.Name) {
+				if g2, ok := t.eng.contracts.Ghosts[n]; ok && n != x.Name {
+					out = append(out, modTarget{name: t.ghostVar(g2, env.pkgOf(g2.Pkg)).Name})
 				}
 			}
 			return out
